@@ -64,7 +64,8 @@ CHECKS["C08"] = {
 CHECKS["C09"] = {
     "engine": "tlc-spec", "category": "model_checking", "design_ref": "6/C09, A.2",
     "technique": "TLA+ MustReject/MustAccept (mandatory attributes counted per list entry) enumerated exhaustively by TLC per profile; every (profile, subject) pair replayed into "
-                 "config.ParseRDNSequence + config.Validate; observations trace-validated by TLC",
+                 "config.ParseRDNSequence + config.Validate; observations trace-validated by TLC; a sample also decided through the database interface (AddProfile + AddAndSign) "
+                 "and end to end through directories (SubjectE2E.tla)",
     "text": "Every profile (attribute lists up to length 3 quick / 4 thorough over {CN,O,C,1.2.3.4} x optional x allowOther, plus 'no list') is an "
             "initial state of MCSubject.tla; TLC checks the two sentences never contradict, decide every subject when allowOther is false and no type repeats, and "
             "that the recursive operators equal their declarative definitions, and writes a verdict row over all subjects (length <= 4 / 5 incl. a "
@@ -208,7 +209,8 @@ CHECKS["C16"] = {
 CHECKS["C01"] = {
     "engine": "tlc-spec", "category": "exploration", "design_ref": "6/C01, 3 (ChainJudge.tla, Repo.tla), 7",
     "technique": "ChainJudge.tla decides which chain facts must hold for a forest (and when the run must fail); facts from the independent verifier; "
-                 "life-cycle part model-checked in Repo.tla (ChainOnRun) and trace-validated by the C12/C15 explorations",
+                 "life-cycle part model-checked in Repo.tla (ChainOnRun) and trace-validated on histories of the real code by the check's own slice (RepoTrace clauses signature, "
+                 "issuerDnBytes, aki, ski, chainAfterDefault on chain / four tiers; thorough: every shape) and by the C12/C15 explorations",
     "text": "Two-level trees over issuer key x subject key x signature algorithm including all misfits (the run must fail and the misfit certificate must "
             "not appear), roots over 14 keys x 9 signature settings, seeded forests of 3-6 entities with distinct DNs in nested directories with and without "
             "profile, and issuers imported from the standard library with four subject string types. For every produced certificate: signature verifies "
